@@ -208,3 +208,8 @@ fn parse_secret_fields<B: BufRead>(
         }
     }
 }
+
+// verification hook (add-only, inert unless built by `cargo kani`, which sets --cfg kani)
+#[cfg(kani)]
+#[path = "/verif/kani/secret_params_harness.rs"]
+mod verif_kani;
